@@ -8,7 +8,9 @@ package corr
 import (
 	"encoding/binary"
 	"fmt"
+	"io"
 	"testing"
+	"testing/synctest"
 	"time"
 
 	"github.com/DataDog/datadog-traceroute/packets"
@@ -59,6 +61,84 @@ func c11ExtraWireIDs(t *testing.T, rep *hx.Report, rng *hx.RNG, env hx.Env) {
 		if bad != "" {
 			rep.Violate(hx.Violation{Kind: "spec", What: "identifier ranges of concurrent TCP runs overlap on the wire: " + bad,
 				Sig: map[string]string{"stream": "extra", "mode": "wire-ids"}, Replay: map[string]any{"runs": desc, "what": bad}})
+		}
+	}
+}
+
+// c11ExtraFailedRun: identifier blocks stay disjoint across LIVE runs when another run gave up before
+// anything left (its first write failed) and was closed while they were still in flight.  Order of
+// events: run A is set up, run B is set up and sends, A's first SendProbe fails and A is closed, B
+// keeps sending, run C is set up and sends.  B and C are live at the same time: the IP ids they
+// put on the wire must not meet, whatever happened to A's block.
+func c11ExtraFailedRun(t *testing.T, rep *hx.Report, rng *hx.RNG, env hx.Env) {
+	for i := 0; i < env.Scale(30, 400); i++ {
+		packets.VerifSetPacketIDCounter(hx.Pick(rng, []uint32{0, 0xfff0, 0xffff, 0x1fff0, 0xfffffff0, uint32(rng.U64())}))
+		cfgs := make([]drvCfg, 3)
+		for k := range cfgs {
+			c := genCfg(rng, "tcp")
+			c.Min = 1
+			c.Max = rng.Range(2, 40)
+			if rng.Chance(1, 4) {
+				c.Min = c.Max
+			}
+			cfgs[k] = c
+		}
+		failClass := hx.Pick(rng, []string{"enobufs", "fatal"})
+		owner := map[uint16]int{}
+		bad := ""
+		synctest.Test(t, func(t *testing.T) {
+			keepRealAlloc = true
+			defer func() { keepRealAlloc = false }()
+			wires := []*memWire{newMemWire(), newMemWire(), newMemWire()}
+			wires[0].faults = []wireFault{{Op: "write", K: 0, Class: failClass}}
+			a, errA := newDriver(cfgs[0], wires[0])
+			b, errB := newDriver(cfgs[1], wires[1])
+			if errA != nil || errB != nil {
+				t.Fatalf("driver construction failed: %v %v", errA, errB)
+			}
+			half := (cfgs[1].Min + cfgs[1].Max) / 2
+			for ttl := cfgs[1].Min; ttl <= half; ttl++ {
+				_ = b.SendProbe(uint8(ttl))
+			}
+			_ = a.SendProbe(uint8(cfgs[0].Min)) // fails: nothing of run A ever leaves
+			if cl, ok := a.(io.Closer); ok {
+				_ = cl.Close()
+			}
+			c, errC := newDriver(cfgs[2], wires[2])
+			if errC != nil {
+				t.Fatalf("driver construction failed: %v", errC)
+			}
+			for ttl := cfgs[2].Min; ttl <= cfgs[2].Max; ttl++ {
+				_ = c.SendProbe(uint8(ttl))
+			}
+			for ttl := half + 1; ttl <= cfgs[1].Max; ttl++ {
+				_ = b.SendProbe(uint8(ttl))
+			}
+			for run, w := range wires {
+				w.log.mu.Lock()
+				for _, wr := range w.log.writes {
+					if len(wr.Pkt) < 20 {
+						continue
+					}
+					id := binary.BigEndian.Uint16(wr.Pkt[4:])
+					if prev, ok := owner[id]; ok && prev != run && bad == "" {
+						bad = fmt.Sprintf("IP id %d is on the wire for run %c and for run %c, which are live at the same time", id, 'A'+prev, 'A'+run)
+					}
+					owner[id] = run
+				}
+				w.log.mu.Unlock()
+			}
+			for _, d := range []any{b, c} {
+				if cl, ok := d.(io.Closer); ok {
+					_ = cl.Close()
+				}
+			}
+		})
+		desc := fmt.Sprintf("A[%d..%d] first write fails (%s), closed; B[%d..%d] live throughout; C[%d..%d] set up after A was closed", cfgs[0].Min, cfgs[0].Max, failClass, cfgs[1].Min, cfgs[1].Max, cfgs[2].Min, cfgs[2].Max)
+		rep.Case("extra/wire-ids-failed-run", fmt.Sprint(desc, i), true, map[string]any{"runs": desc})
+		if bad != "" {
+			rep.Violate(hx.Violation{Kind: "spec", What: "identifier ranges of concurrent TCP runs overlap on the wire after another run failed and was closed: " + bad,
+				Sig: map[string]string{"stream": "extra", "mode": "wire-ids-failed-run"}, Replay: map[string]any{"runs": desc, "what": bad}})
 		}
 	}
 }
